@@ -7,7 +7,8 @@ the SPECIFICATION (spec/A64.tla) with the claim - an independent sanity check of
 transcription of the Arm ARM by expectations written by other authors - and, as for every
 instance, the lifted code with the specification.
 
-Tests that run several instructions are cut down to the instruction they are about (the
+mov_velem (three instructions, one assertion) is split into its three steps.  The other
+tests that run several instructions are cut down to the instruction they are about (the
 conditional/compare/test branches: claim = next pc, derived from "x0 == 45 <=> branch taken").
 `disputed` marks claims where the repository's expectation contradicts the Arm ARM (the
 specification must then DISAGREE with the claim; see parts/C03.design.md).
@@ -158,6 +159,17 @@ A(inst("strb_wn_xn", 0x3900012f, S15, claim=[cmem(MB, [(BASE, 0x7800000000000000
 A(inst("strh_wn_xn", 0x7900012f, S15, claim=[cmem(MB, [(BASE, 0x5678000000000000, 64)])]))
 A(inst("stur_wn_xn", 0xb800312f, S15, claim=[cmem(MB, [(BASE + 3, 0x1234567800000000, 64)])]))
 A(inst("str_qn_xn", 0x3d80012f, {"x9": BASE}, q={15: 0xdeadbeef12345678}, claim=[cmem(MB, [(BASE, 0xdeadbeef12345678, 128)])]))
+
+# mov_velem runs three instructions and asserts only the last result (x29 == 0x62baced3).  The two
+# intermediate V31 values are derived by hand from the Arm ARM (INS general writes element d[0], INS element
+# copies byte 2 to byte 6); the chain must end in the value the repository's test asserts.
+V31_0 = 0x51aad564c6b04cbd
+V31_1 = 0x62d8ced391ba44f3
+V31_2 = 0x62baced391ba44f3
+CV = lambda v: {"c": "v31", "v": l(v, 16)}
+A(inst("mov_velem.1", 0x4e081c1f, {"x0": 0x62d8ced391ba44f3}, q={31: V31_0}, claim=[CV(V31_1)]))
+A(inst("mov_velem.2", 0x6e0d17ff, {"x0": 0x62d8ced391ba44f3}, q={31: V31_1}, claim=[CV(V31_2)]))
+A(inst("mov_velem.3", 0x0e0c3ffd, {"x0": 0x62d8ced391ba44f3}, q={31: V31_2}, claim=[cx(29, 0x0000000062baced3)]))
 
 with open(__file__.rsplit("/", 1)[0] + "/repo_tests.ndjson", "w") as f:
     for e in out:
